@@ -465,6 +465,27 @@ Definition F03 (f : string) (pos : list val) (kw : list (string * val)) : option
     | [VInt t; VArr y], [] => Some [VArr (map (fun z => 2 * z + t) y)]
     | _, _ => None
     end
+  else if String.eqb f "<func>rhsz" then
+    match pos, kw with
+    | [VInt t; VArr z], [] => Some [VArr (map (fun x => 3 * x - t) z)]
+    | _, _ => None
+    end
+  else if String.eqb f "<func>rhsw" then
+    match pos, kw with
+    | [VInt t; VArr w], [] => Some [VArr (map (fun x => t - x) w)]
+    | _, _ => None
+    end
+  else if String.eqb f "<builtin>elementwise_abs" then
+    match pos, kw with
+    | [VArr l], [] => Some [VArr (map Z.abs l)]
+    | [VInt x], [] => Some [VInt (Z.abs x)]
+    | _, _ => None
+    end
+  else if String.eqb f "<builtin>isnan" then
+    match pos, kw with
+    | [VArr _], [] | [VInt _], [] => Some [VBool false]       (* integer-valued data has no NaN *)
+    | _, _ => None
+    end
   else if String.eqb f "<builtin>len" then
     match pos, kw with
     | [VArr l], [] => Some [VInt (Z.of_nat (List.length l))]
@@ -476,3 +497,36 @@ Definition F03 (f : string) (pos : list val) (kw : list (string * val)) : option
     | _, _ => None
     end
   else None.
+
+(* ---- helper subroutines of called functions (fortran.py emit_inst_AssignFunctionCall /
+   finish_emit / emit_dagrt_function) ----
+   The generator emits ONE subroutine per key (function identifier, kinds of the arguments) -- the
+   key is pinned fail-closed by harness/tr/c03.py (c03_helper_key) -- and the body of a built-in
+   that walks the Fortran type of a user-type argument (len, norm_2, isnan, elementwise_abs) has
+   the extents of THAT user type written into it.  In the model a call is evaluated by F on its own
+   argument values, i.e. by the helper instantiated for its own argument kinds; `helper` makes the
+   instantiation explicit: a helper made for the kinds ks is the function restricted to arguments of
+   those kinds, it has no defined behaviour on others (in particular on a vector of another extent:
+   the value-level shadow of "another user type"). *)
+Inductive akind := AInt | ABool | ANone | AVec (extent : nat).
+Definition kind_of_val (v : val) : akind :=
+  match v with
+  | VInt _ => AInt | VBool _ => ABool | VNone => ANone
+  | VArr l => AVec (List.length l)
+  end.
+Definition akind_eqb (a b : akind) : bool :=
+  match a, b with
+  | AInt, AInt | ABool, ABool | ANone, ANone => true
+  | AVec n, AVec m => Nat.eqb n m
+  | _, _ => false
+  end.
+Fixpoint akinds_eqb (a b : list akind) : bool :=
+  match a, b with
+  | [], [] => true
+  | x :: a', y :: b' => akind_eqb x y && akinds_eqb a' b'
+  | _, _ => false
+  end.
+Definition helper_key (f : string) (pos : list val) : string * list akind := (f, map kind_of_val pos).
+Definition helper (F : string -> list val -> list (string * val) -> option (list val))
+           (key : string * list akind) (pos : list val) (kw : list (string * val)) : option (list val) :=
+  if akinds_eqb (snd key) (map kind_of_val pos) then F (fst key) pos kw else None.
